@@ -1347,6 +1347,12 @@ func writableFrom(t types.Type, from *types.Package) error {
 // importableFrom reports whether the package with the given import path may
 // be imported by package from under Go's rule for internal packages.
 func importableFrom(path, from string) bool {
+	if from == "command-line-arguments" {
+		// A package named by a list of its files: its real import path is
+		// not known here. The go tool has already refused, while loading,
+		// any import that package may not make.
+		return true
+	}
 	padded := "/" + path + "/"
 	i := strings.LastIndex(padded, "/internal/")
 	if i < 0 {
